@@ -84,6 +84,13 @@ static inline void iora_rbcur_next(iora_rbcur *c) { IORA_ASSERT(c->k < c->N, "++
 #define LOCKFREE(im) (!(im)->syncMutex.held && !(im)->callbackMutex.held && !(im)->observerMutex.held && !(im)->userDataMutex.held)
 size_t G_seq, G_obs_calls, G_global_seq, G_w_seq, G_cleanup_seq; unsigned G_global_calls, G_w_calls, G_cleanup_calls;
 size_t G_obs_next; SessionId G_cb_sid; int G_cb_code; uint64_t G_cleanup_data; bool G_global_registered;
+/* The global close callback is USER CODE running with no Transport lock held: it may call back into the Transport. Modelled as an environment step that may
+ * unobserve() an arbitrary observer id and may observe() a new observer on the CLOSING session - through the REAL (extracted) Transport::unobserve / observe, so the
+ * observerMutex discipline is theirs. The state of the witness session's observer list when the callback RETURNS is recorded (G_ag_*): "still registered" in C02's
+ * "then each still-registered per-session observer" means registered at that moment. */
+uint64_t Transport_observe(Impl *_impl, SessionId sid, iora_fn cb);
+bool Transport_unobserve(Impl *_impl, uint64_t id);
+bool G_ag_valid, G_ag_present; iora_obsvec G_ag_vec; bool G_ag_o2s_present; uint64_t G_w_called_id;
 static inline void iora_call_CloseCallback(Impl *im, iora_fn f, SessionId sid, iora_errinfo reason)
 {
   IORA_ASSERT(f.set, "CB1 an empty std::function is never invoked");
@@ -91,6 +98,9 @@ static inline void iora_call_CloseCallback(Impl *im, iora_fn f, SessionId sid, i
   IORA_ASSERT(G_obs_calls == 0 && G_cleanup_calls == 0, "ORD0 the global close callback runs before every observer and before the cleanup");
   if (G_global_calls < 1000) G_global_calls++;
   G_global_seq = ++G_seq; G_cb_sid = sid; G_cb_code = reason.code;
+  if (nondet_bool()) { (void)Transport_unobserve(im, nondet_u64()); }
+  if (nondet_bool()) { iora_fn c; c.set = nondet_bool(); IORA_ASSUME(im->nextObserverId < (uint64_t)-1); (void)Transport_observe(im, sid, c); }
+  G_ag_valid = 1; G_ag_present = im->observers.present; G_ag_vec = im->observers.wval; G_ag_o2s_present = im->observerToSession.present;
 }
 static inline void iora_call_Observer(Impl *im, const iora_obsvec *v, size_t i, SessionId sid, iora_errinfo reason)
 {
@@ -103,7 +113,7 @@ static inline void iora_call_Observer(Impl *im, const iora_obsvec *v, size_t i, 
   IORA_ASSERT(i >= G_obs_next, "ORD2 observers run in vector (registration) order, each at most once");
   G_obs_next = i + 1;
   G_obs_calls++;
-  if (i == GI) { if (G_w_calls < 1000) G_w_calls++; G_w_seq = ++G_seq; } else { ++G_seq; }
+  if (i == GI) { if (G_w_calls < 1000) G_w_calls++; G_w_seq = ++G_seq; G_w_called_id = v->w.id; } else { ++G_seq; }
   IORA_ASSERT(sid == G_cb_sid || G_global_calls == 0, "observer receives the closing session id");
 }
 static inline void iora_call_Cleanup(Impl *im, uint64_t data)
@@ -139,10 +149,11 @@ static inline uint64_t iora_afetch_add_u64(uint64_t *x, uint64_t n) { uint64_t o
   __CPROVER_decreases(OC_VEC1.n - iora_k))
 /* loop 2: invoke the copied observers, outside every lock */
 #define IORA_LOOP_Impl_onClose_2 IORA_LC( \
-  __CPROVER_assigns(iora_i, G_seq, G_obs_calls, G_w_calls, G_w_seq, G_obs_next) \
+  __CPROVER_assigns(iora_i, G_seq, G_obs_calls, G_w_calls, G_w_seq, G_obs_next, G_w_called_id) \
   __CPROVER_loop_invariant(iora_i <= sessionObservers.n && G_obs_next <= iora_i && G_obs_calls <= iora_i) \
   __CPROVER_loop_invariant(GI < iora_i ==> G_w_calls == (sessionObservers.w.cb_set ? 1u : 0u)) \
   __CPROVER_loop_invariant(GI >= iora_i ==> G_w_calls == 0) \
+  __CPROVER_loop_invariant(G_w_calls == 0 || G_w_called_id == sessionObservers.w.id) \
   __CPROVER_loop_invariant(G_w_calls == 0 || (G_w_seq > G_global_seq && G_w_seq <= G_seq)) \
   __CPROVER_loop_invariant(G_seq == __CPROVER_loop_entry(G_seq) + G_obs_calls && G_global_seq <= __CPROVER_loop_entry(G_seq)) \
   __CPROVER_decreases(sessionObservers.n - iora_i))
